@@ -17,6 +17,7 @@ import time
 import traceback
 
 HERE = os.path.dirname(os.path.dirname(os.path.abspath(__file__)))
+OUT = os.environ.get('VERIF_OUT') or HERE      # evidence/ and replays/ go here (scratch dir for sensitivity runs)
 NSHARDS_DEFAULT = 16
 MAX_SAMPLES = 8
 
@@ -235,7 +236,7 @@ def find_module(prop):
 
 
 def write_replay(prop, vd):
-    d = os.path.join(HERE, 'replays')
+    d = os.path.join(OUT, 'replays')
     os.makedirs(d, exist_ok=True)
     slug = ''.join(c if c.isalnum() else '-' for c in vd['kind'])[:40]
     name = '%s-%s-%016x.json' % (prop, slug, h64(vd['case']))
@@ -370,8 +371,8 @@ def run(prop, tier, seed, nshards, replay=None):
     }
     if errors:
         evidence['coverage']['harness_errors'] = errors[:5]
-    os.makedirs(os.path.join(HERE, 'evidence'), exist_ok=True)
-    with open(os.path.join(HERE, 'evidence', prop + '.json'), 'w', encoding='utf-8') as f:
+    os.makedirs(os.path.join(OUT, 'evidence'), exist_ok=True)
+    with open(os.path.join(OUT, 'evidence', prop + '.json'), 'w', encoding='utf-8') as f:
         json.dump(evidence, f, ensure_ascii=False, indent=1, default=repr)
     print('%s tier=%s seed=%d: %d cases, %d distinct non-trivial, %d violation(s), %.1f s'
           % (prop, tier, seed, ev, len(nontriv), nviol, time.time() - t0))
